@@ -1,5 +1,6 @@
 """C06 - no comment is lost, duplicated, reordered or reworded (statically decidable clauses)."""
 import re
+import cfg
 import grammar
 from mirfacts import callee_path, resolved_id, resolved_path
 from paths import BodyView
@@ -128,6 +129,13 @@ def r2_typed_accessor_bypass(w):
                  [((a[3] or '').rsplit('::', 1)[-1], a[4]) for a in wh.assumed[-4:] if len(a) > 4], parent, why), b.loc() if b else None)
     if n < 40:
         raise AnchorMissing('converters evaluated for the bypass rule (found %d)' % n)
+    # functions that rebuild the nodes of a collection they receive (the plain dot-chain layout)
+    nc = 0
+    for ok, cons, key, why, loc in collection_bypass_obligations(w):
+        nc += 1
+        (r.ok(cons, why) if ok else r.bad(cons, key, why, loc))
+    if nc < 1:
+        raise AnchorMissing('collection-rebuilding functions (expected the plain dot-chain layout)')
     return r
 
 
@@ -276,3 +284,196 @@ for _f in RULES:
     _f.needs = ('core',)
 MATRIX_RULES = [r1_comment_coverage]
 EXTRA_CONFIGS = ['core-serde']
+
+
+# ---------------------------------------------------------------------------------------------
+# R2 (collections): a function that receives a *collection* of nodes and rebuilds some of them from typed accessors
+# (instead of converting each node as a whole) is reached only when every node of that collection was tested to be comment-free
+# ---------------------------------------------------------------------------------------------
+COLL_TY = re.compile(r"^(&(mut )?)?(std::vec::Vec<&+typst_syntax::SyntaxNode>|\[&+typst_syntax::SyntaxNode\])$")
+NODE_RETURNING = lambda ty: bool(grammar.ast_type_name(ty)) or bool(re.search(r'typst_syntax::ast::\w+<', ty['s']))
+ITEM_PICKERS = re.compile(r'(Iterator>?::next|slice::<impl \[T\]>::(last|first|get)|Index<.*>>::index|Deref>::deref|IntoIterator>?::into_iter|slice::<impl \[T\]>::iter|Option::<T>::(unwrap|expect)|Try>::branch|'
+                          r'SyntaxNode::cast|AstNode.*::from_untyped|Iterator>?::(skip|take|rev|by_ref|peekable))$')
+
+
+def _from_collection(v, operand, coll_locals, depth=0):
+    """does the operand (a node) come out of one of the collection locals (iteration item, last(), index, ..), through casts?"""
+    if depth > 10:
+        return False
+    for o in set(v.pv.origins_operand(operand)) | set(v.pv.peel(v.pv.origins_operand(operand))):
+        if o[0] == 'param' and o[1] in coll_locals:
+            return True
+        if o[0] == 'ref' and o[1][0] in coll_locals:
+            return True
+        if o[0] == 'call':
+            ct = v.pv.call_term(o)
+            p = callee_path(ct) or ''
+            if ITEM_PICKERS.search(p) and ct['args']:
+                if _from_collection(v, ct['args'][0], coll_locals, depth + 1):
+                    return True
+    return False
+
+
+def _scan_flags(w, b, v):
+    """{flag local: collection local} for the idiom
+         let mut flag = false; for item in &coll { if <no-comment guard>(item) { flag = true } }
+       (the flag is assigned nowhere else)"""
+    out = {}
+    loops = cfg.natural_loops(b)
+    for h, blocks in loops.items():
+        t = b.blocks[h]['term']
+        if t['t'] != 'call' or not re.search(r'Iterator>?::next$', callee_path(t) or ''):
+            continue
+        # the iterated collection
+        coll = set()
+        work = [t['args'][0]]
+        hops = 0
+        while work and hops < 10:
+            hops += 1
+            cur = work.pop()
+            for o in set(v.pv.origins_operand(cur)) | set(v.pv.peel(v.pv.origins_operand(cur))):
+                if o[0] == 'ref':
+                    l = o[1][0]
+                    if COLL_TY.search(b.locals[l]['ty']['s']):
+                        coll.add(l)
+                    else:
+                        # a local holding the iterator: follow its definition
+                        for (proj, kind, dbi, dsi, payload) in v.pv.defs.get(l, []):
+                            if kind == 'rv' and payload['r'] == 'use':
+                                work.append(payload['op'])
+                            elif kind == 'call':
+                                ct = b.blocks[dbi]['term']
+                                if re.search(r'IntoIterator>?::into_iter$|::iter$', callee_path(ct) or '') and ct['args']:
+                                    work.append(ct['args'][0])
+                elif o[0] == 'param' and COLL_TY.search(b.locals[o[1]]['ty']['s']):
+                    coll.add(o[1])
+                elif o[0] == 'call':
+                    ct = v.pv.call_term(o)
+                    if re.search(r'IntoIterator>?::into_iter$|::iter$', callee_path(ct) or '') and ct['args']:
+                        work.append(ct['args'][0])
+        if len(coll) != 1:
+            continue
+        item_dest = t['dest']['l']
+        for bi in blocks:
+            gt = b.blocks[bi]['term']
+            if gt['t'] != 'call' or not (NO_COMMENT_GUARD.search(callee_path(gt) or '') or NO_COMMENT_GUARD.search(w_short(v, gt))):
+                continue
+            # applied to the loop item
+            subj = v.pv.peel(v.pv.origins_operand(gt['args'][-1] if gt['args'] else None)) if gt['args'] else set()
+            if not any(o[0] == 'call' and o[1][0] == h for o in subj):
+                continue
+            nb = gt.get('target')
+            if nb is None or b.blocks[nb]['term']['t'] != 'switch':
+                continue
+            for tgt, label in v.switch_edges(nb):
+                if v.label_values(nb, label) != {True}:
+                    continue
+                for st in b.blocks[tgt]['stmts']:
+                    if st['s'] == 'assign' and not st['p']['proj'] and st['rv']['r'] == 'use' and st['rv']['op'].get('int') == 1 and b.locals[st['p']['l']]['ty']['s'] == 'bool':
+                        f = st['p']['l']
+                        # every other whole assignment to the flag is `= false` outside the loop
+                        ok = True
+                        for (proj, kind, dbi, dsi, payload) in v.pv.defs.get(f, []):
+                            if kind != 'rv' or payload['r'] != 'use' or payload['op'].get('o') != 'const':
+                                ok = False
+                            elif payload['op'].get('int') == 0 and dbi in blocks:
+                                ok = False
+                        if ok:
+                            out[f] = list(coll)[0]
+    return out
+
+
+def collection_bypass_obligations(w):
+    out = []
+    core = w.core
+    g = grammar.load()
+    admits = {k for k in grammar.CHILDREN if set(grammar.CHILDREN[k]) & COMMENT}
+    for f in w.fn_bodies(core):
+        if f.def_kind == 'Closure' or not f.short.startswith('pretty::'):
+            continue
+        cparams = [i for i in range(1, f.arg_count + 1) if COLL_TY.search(f.locals[i]['ty']['s'])]
+        if not cparams:
+            continue
+        ret = f.locals[0]['ty']['s']
+        if not (ret.startswith('pretty::DocBuilder') or ret.startswith('std::option::Option<pretty::DocBuilder')):
+            continue
+        fv = BodyView(w, f)
+        # locals the collection is moved into (`for child in chain`): treat as the same collection
+        coll_locals = set(cparams)
+        for l, ds in fv.pv.defs.items():
+            for (proj, kind, dbi, dsi, payload) in ds:
+                if kind == 'rv' and payload['r'] == 'use' and payload['op'].get('o') in ('move', 'copy') and payload['op']['p']['l'] in coll_locals and not payload['op']['p']['proj']:
+                    coll_locals.add(l)
+        picks = []
+        for bi, t in f.calls():
+            p = callee_path(t) or ''
+            m = re.match(r"^typst_syntax::ast::(\w+)::<'?\w*>::(\w+)$", p) or re.match(r'^typst_syntax::ast::(\w+)::(\w+)$', p)
+            if not m or t['dest']['proj']:
+                continue
+            T, meth = m.group(1), m.group(2)
+            if not NODE_RETURNING(f.locals[t['dest']['l']]['ty']):
+                continue
+            if not (set(g['kinds_of'].get(T, [])) & admits):
+                continue
+            if t['args'] and _from_collection(fv, t['args'][0], coll_locals):
+                picks.append((T, meth, bi))
+        if not picks:
+            continue
+        cons = {'fn': last(f.short), 'collection_param': [f.names.get(i, '_%d' % i) for i in cparams], 'selective_accessors': sorted({'%s::%s' % (T, m_) for T, m_, _ in picks})}
+        # (a) a scan over the parameter inside f that dominates every pick
+        inner = _scan_flags(w, f, fv)
+        ok_inside = False
+        for flag, coll in inner.items():
+            if coll in coll_locals and all(any(atom == 'local:%d' % flag or _is_flag_guard(fv, sw, flag) and vals == {False} for atom, vals, sw in fv.guards(bi)) for _, _, bi in picks):
+                ok_inside = True
+        if ok_inside:
+            out.append((True, cons, 'collection|%s' % last(f.short), 'scans its own parameter for comments before using the accessors', f.loc()))
+            continue
+        # (b) every call site passes a collection that was scanned and is on the comment-free edge
+        callers = [(cb, bi, t) for cb in w.fn_bodies(core) for bi, t in cb.calls() if resolved_id(t) == f.id]
+        bad = None
+        if not callers:
+            bad = 'it has no direct call sites'
+        for (cb, bi, t) in callers:
+            cv = BodyView(w, cb)
+            flags = _scan_flags(w, cb, cv)
+            arg_locals = set()
+            for i in cparams:
+                for o in set(cv.pv.origins_operand(t['args'][i - 1])) | set(cv.pv.peel(cv.pv.origins_operand(t['args'][i - 1]))):
+                    if o[0] in ('param',):
+                        arg_locals.add(o[1])
+                    elif o[0] == 'ref':
+                        arg_locals.add(o[1][0])
+                a = t['args'][i - 1]
+                if a['o'] in ('move', 'copy') and not a['p']['proj']:
+                    arg_locals.add(a['p']['l'])
+                    for (proj, kind, dbi, dsi, payload) in cv.pv.defs.get(a['p']['l'], []):
+                        if kind == 'rv' and payload['r'] == 'use' and payload['op'].get('o') in ('move', 'copy'):
+                            arg_locals.add(payload['op']['p']['l'])
+            covered = False
+            for flag, coll in flags.items():
+                if coll in arg_locals and any(_is_flag_guard(cv, sw, flag) and vals == {False} for atom, vals, sw in cv.guards(bi)):
+                    covered = True
+            if not covered:
+                bad = 'the call in %s is not on the comment-free edge of a scan of the same collection (scans found: %s)' % (
+                    last(cb.short), {cb.names.get(fl, fl): cb.names.get(c_, c_) for fl, c_ in flags.items()} or 'none')
+        if bad:
+            out.append((False, cons, 'collection|%s' % last(f.short),
+                        '%s rebuilds nodes of the collection it receives from typed accessors (%s) - whatever else these nodes contain, comments included, is not emitted - and %s: '
+                        'a comment inside any node of the collection that the test does not look at is dropped' % (f.short, ', '.join(cons['selective_accessors']), bad), f.loc()))
+        else:
+            out.append((True, cons, 'collection|%s' % last(f.short), 'every call site is on the comment-free edge of a scan over the same collection', f.loc()))
+    return out
+
+
+def _is_flag_guard(v, sw, flag):
+    d = v.b.blocks[sw]['term']['discr']
+    if d.get('o') not in ('copy', 'move'):
+        return False
+    l = d['p']['l']
+    if l == flag:
+        return True
+    for (proj, kind, dbi, dsi, payload) in v.pv.defs.get(l, []):
+        if kind == 'rv' and payload['r'] == 'use' and payload['op'].get('o') in ('copy', 'move') and payload['op']['p']['l'] == flag:
+            return True
+    return False
